@@ -5,6 +5,7 @@ import Driver.Recovery
 import Driver.Receiver
 import Driver.Config
 import Driver.Route
+import Driver.Producer
 /-!
 fbdriver: reads `<id>\t<input>\t<impl observation>` lines on stdin, runs the model of the chosen
 component on `<input>` and prints one verdict line per case:
@@ -25,6 +26,7 @@ def dispatch (comp : String) : Option (String → String → Verdict) :=
   | "receiver" => some Receiver.check
   | "config" => some Config.check
   | "route" => some Route.check
+  | "producer" => some Producer.check
   | _ => none
 
 partial def loop (h : IO.FS.Stream) (out : IO.FS.Stream) (f : String → String → Verdict) : IO Unit := do
